@@ -28,6 +28,10 @@ fn descs() -> Vec<FnDesc> {
         FnDesc { name: "nr", cacheable: false, kind: Kind::ER, suspend: 0 },
         // does not override cacheable(): the default must mean "cacheable"
         FnDesc { name: "dcx", cacheable: true, kind: Kind::Tag, suspend: 0 },
+        // long names of equal length, and one that is a prefix of the others
+        FnDesc { name: "a_rather_long_function_name_for_a_cacheable_lookup_a", cacheable: true, kind: Kind::Tag, suspend: 0 },
+        FnDesc { name: "a_rather_long_function_name_for_a_cacheable_lookup_b", cacheable: true, kind: Kind::E, suspend: 0 },
+        FnDesc { name: "a_rather_long_function_name_for_a_cacheable_lookup", cacheable: false, kind: Kind::V, suspend: 0 },
     ]
 }
 
@@ -52,6 +56,7 @@ fn args() -> Vec<Value> {
         Value::Map([("a".to_string(), Value::Map([("b".to_string(), Value::Int(1))].into_iter().collect())), ("c".to_string(), Value::Int(2))].into_iter().collect()),
         Value::Map([("a".to_string(), Value::Map([("b".to_string(), Value::Int(1)), ("c".to_string(), Value::Int(2))].into_iter().collect()))].into_iter().collect()),
         Value::Vec(vec![Value::String("ab".into())]), Value::Vec(vec![Value::String("a".into()), Value::String("b".into())]), Value::String("ab".into()),
+        Value::String("x".repeat(10_000)), Value::String(format!("{}y", "x".repeat(9_999))), Value::Vec((0..1000).map(Value::Int).collect()), Value::Vec((0..1000).map(|i| Value::Int(if i == 999 { -1 } else { i })).collect()),
         Value::Map(BTreeMap::new()), Value::String("{}".into()), Value::String("[]".into()), Value::String("none".into()), Value::String("None".into()),
     ]
 }
@@ -121,7 +126,7 @@ fn judge(ctx: &mut Ctx, calls: &[Call], cuts: &[usize], plan: FaultPlan, family:
     }
     ctx.hit(&format!("calls:{}", pred.calls.min(12)));
     // three consecutive evaluations of the same ruleset: each must look like the first
-    for round in 1..=3u64 {
+    for round in 1..=5u64 {
         let res = match fx.eval(&facts, round) {
             Ok(r) => r,
             Err(p) => {
@@ -239,9 +244,9 @@ fn exhaustive(ctx: &mut Ctx, max_len: usize) {
 fn random(ctx: &mut Ctx, n: usize) {
     let mut rng: Rng = ctx.rng.clone();
     let a = args();
-    let fns = ["ca", "cb", "na", "cn", "ce", "nb", "cr", "nr", "dcx"];
+    let fns = ["ca", "cb", "na", "cn", "ce", "nb", "cr", "nr", "dcx", "a_rather_long_function_name_for_a_cacheable_lookup_a", "a_rather_long_function_name_for_a_cacheable_lookup_b", "a_rather_long_function_name_for_a_cacheable_lookup"];
     for _ in 0..n {
-        let len = 1 + rng.below(12);
+        let len = if rng.chance(1, 10) { 13 + rng.below(48) } else { 1 + rng.below(12) };
         // few distinct arguments per history so that repeats are common
         let k = 1 + rng.below(4);
         let local: Vec<usize> = (0..k).map(|_| if rng.chance(1, 4) { 1_000_000 + rng.below(1_000_000) } else { rng.below(a.len()) }).collect();
@@ -266,7 +271,7 @@ fn random(ctx: &mut Ctx, n: usize) {
 fn long_histories(ctx: &mut Ctx, n: usize) {
     let mut rng: Rng = ctx.rng.clone();
     for _ in 0..n {
-        let distinct = 20 + rng.below(200);
+        let distinct = if rng.chance(1, 5) { 300 + rng.below(1200) } else { 20 + rng.below(200) };
         let mut calls: Vec<Call> = vec![];
         // the argument table for this history: integers 1000.. are appended to the shared pool on the fly through `arg` indices
         // (indices beyond the pool are mapped to Int(index) in call_expr_long)
@@ -291,12 +296,12 @@ fn long_histories(ctx: &mut Ctx, n: usize) {
 fn run(ctx: &mut Ctx) {
     long_histories(ctx, ctx.tier.of(30, 300));
     exhaustive(ctx, ctx.tier.of(3, 4));
-    random(ctx, ctx.tier.of(100_000, 1_000_000));
+    random(ctx, ctx.tier.of(60_000, 600_000));
 }
 
 fn finish(m: &Merged, tier: Tier) -> Finish {
     let mut f = Finish {
-        rule: "a history is a sequence of user-function calls spread over 1-5 rules of one ruleset (8 instrumented functions: cacheable / non-cacheable, always-failing (with a plain error and with an error that is itself a reval::Error), None-returning; 19 look-alike arguments such as i1 / \"1\" / \"i1\" / [i1] / f1 / d1 / {a:i1} / none; nested calls) under a fault plan (fail the j-th invocation of (function, argument)). The invocation log of each of three consecutive evaluations must equal the log predicted by a sequential per-evaluation cache model, and every outcome the model's (including UserFunctionError{function, original text}). Non-trivial = histories with >= 2 calls; distinct by predicted invocation sequence".into(),
+        rule: "a history is a sequence of user-function calls spread over 1-5 rules of one ruleset (8 instrumented functions: cacheable / non-cacheable, always-failing (with a plain error and with an error that is itself a reval::Error), None-returning; 19 look-alike arguments such as i1 / \"1\" / \"i1\" / [i1] / f1 / d1 / {a:i1} / none; nested calls) under a fault plan (fail the j-th invocation of (function, argument)). The invocation log of each of five consecutive evaluations must equal the log predicted by a sequential per-evaluation cache model, and every outcome the model's (including UserFunctionError{function, original text}). Non-trivial = histories with >= 2 calls; distinct by predicted invocation sequence".into(),
         exhaustive: false,
         exhaustive_part: format!("all call sequences of length <= {} over 3 functions x 3 arguments, each under every fault plan with <= 2 faults out of 8 (37 plans)", tier.of(3, 4)),
         ..Default::default()
@@ -304,7 +309,7 @@ fn finish(m: &Merged, tier: Tier) -> Finish {
     f.floors.push(floor(format!("distinct histories: {}", m.distinct_nontrivial), m.distinct_nontrivial >= tier.of(5_000, 50_000)));
     f.floors.push(floor(format!("predicted cache hits: {}", m.c("cache-hits-predicted")), m.c("cache-hits-predicted") >= 10_000));
     f.floors.push(floor(format!("histories with failing invocations: {}", m.c("histories-with-failures")), m.c("histories-with-failures") >= 5_000));
-    f.floors.push(floor(format!("third consecutive evaluations checked: {}", m.c("evaluation-round:3")), m.c("evaluation-round:3") >= tier.of(20_000, 200_000)));
+    f.floors.push(floor(format!("fifth consecutive evaluations checked: {}", m.c("evaluation-round:5")), m.c("evaluation-round:5") >= tier.of(20_000, 200_000)));
     f.extras.insert("histories_distinct".into(), json!(m.distinct_nontrivial));
     f.extras.insert("calls_per_history".into(), json!(m.prefix_map("calls:")));
     f.extras.insert("families".into(), json!(m.prefix_map("family:")));
